@@ -6,6 +6,7 @@ import threading
 import time
 from concurrent.futures import ThreadPoolExecutor
 from vlib import core
+from checks import _tmpl_streams as T
 
 META = {
     "property_id": "C01",
@@ -1235,6 +1236,7 @@ def run(ctx):
     ht.start()
     for name in ("wellformed", "malformed", "wellformed-wide", "malformed-wide"):
         streams.append((name, to_lines("tplrender", gen[name]), True))
+    streams.append(("tail-echo", to_lines("tplrender", T.c01_tail_echo(ctx)), True))   # unresolved {var:n&me} ending the buffer (round c)
     streams.append(("tagtree", to_lines("tpltags", gen["tagtree"]), True))
     streams.append(("g3", to_lines("tplrender", gen["g3"]), False))
     # the cache entry point (C17 uses the verdict; here only faults count)
